@@ -41,7 +41,8 @@ def owner_in(owner, prefixes=(), classes=()):
 
 PROPS = {
     "C01": {
-        "theorems": ["C01_task_timing", "C01_unscheduled_parked"],
+        "theorems": ["C01_task_timing", "C01_unscheduled_parked", "C01_spec_sound"],
+        "modules": ["SpecSound"],
         "profiles": [("core", 0.7), ("all", 0.3)],
         "relevant": lambda o: owner_in(o, ("task:", "problem")),
         "spec": "C01",
@@ -58,7 +59,8 @@ PROPS = {
     },
     "C10": {
         "theorems": ["C10_connective_raw", "C10_connective", "C10_optional", "C10_mandatory", "C10_forceApplyN",
-                     "C10_no_leak", "C10_constraint_part"],
+                     "C10_no_leak", "C10_constraint_part", "C10_operands_marked", "C10_operand_not_enforced", "C10_spec_sound"],
+        "modules": ["SpecSound"],
         "profiles": [("fol", 0.8), ("all", 0.2)],
         "relevant": lambda o: owner_in(o, (), FOL_CLASSES) or o.startswith("constr:"),
         "spec": "C10",
@@ -74,7 +76,8 @@ PROPS = {
         "n": {"quick": 200, "thorough": 3000},
     },
     "C03": {
-        "theorems": ["C03_raw_sound", "C03_task_constraints", "C03_optional_constraints"],
+        "theorems": ["C03_raw_sound", "C03_task_constraints", "C03_optional_constraints", "C03_scheduleN_lower", "C03_scheduleN_enforced", "C03_spec_sound"],
+        "modules": ["SpecSound"],
         "profiles": [("taskc", 0.7), ("all", 0.3)],
         "relevant": lambda o: owner_in(o, (), TASK_CLASSES),
         "spec": "C03",
@@ -89,7 +92,8 @@ PROPS = {
         "n": {"quick": 250, "thorough": 4000},
     },
     "C04": {
-        "theorems": ["C04_raw_sound", "C04_resource_constraints", "workloadOne_sound", "sortNoDup_sound"],
+        "theorems": ["C04_raw_sound", "C04_resource_constraints", "workloadOne_sound", "sortNoDup_sound", "C04_periodic_own_period", "C04_periodic_enforced", "C04_spec_sound"],
+        "modules": ["SpecSound"],
         "profiles": [("resc", 0.8), ("all", 0.2)],
         "relevant": lambda o: owner_in(o, (), RES_CLASSES),
         "spec": "C04",
@@ -105,7 +109,8 @@ PROPS = {
         "n": {"quick": 250, "thorough": 4000},
     },
     "C08": {
-        "theorems": ["C08_body_sound", "C08_indicator_value", "C08_target_bounds", "linear_trapezoid"],
+        "theorems": ["C08_body_sound", "C08_indicator_value", "C08_target_bounds", "linear_trapezoid", "C08_spec_sound"],
+        "modules": ["SpecSound"],
         "profiles": [("ind", 0.7), ("obj", 0.3)],
         "relevant": lambda o: owner_in(o, ("indicator:",), {"IndicatorTarget", "IndicatorBounds"}),
         "spec": "C08",
@@ -211,7 +216,7 @@ PROPS = {
     "C05": {
         "theorems": ["C05_complete_core", "C05_unsat_means_no_valid_schedule", "task_complete", "reqs_complete",
                      "core_raw_complete", "noOverlapPairs_complete"],
-        "profiles": [("all", 0.5), ("frag", 0.3), ("resc", 0.2)],
+        "profiles": [("all", 0.35), ("frag", 0.25), ("resc", 0.15), ("fol", 0.25)],
         "relevant": lambda o: True,
         "spec": None,
         "exact": True,
@@ -408,7 +413,8 @@ PROPS = {
     },
     "C02": {
         "theorems": ["C02_no_overlap", "C02_load_le_one", "C02_cumulative_capacity", "C02_busy_span",
-                     "C02_selection_count", "C02_work_amount"],
+                     "C02_selection_count", "C02_work_amount", "C02_spec_sound"],
+        "modules": ["SpecSound"],
         "profiles": [("core", 0.5), ("resc", 0.3), ("all", 0.2)],
         "relevant": lambda o: owner_in(o, ("req:", "worker:", "work:")),
         "spec": "C02",
@@ -682,7 +688,7 @@ def run_output_item(prop, tier, it, d, summary):
         diffs, n = sol.run_case(d, script, rng, use_z3=use_z3)
     else:
         from harness import outch
-        diffs, n = outch.run_case(d, script, rng, use_z3=use_z3, what=spec["out_what"])
+        diffs, n = outch.run_case(d, script, rng, use_z3=use_z3, what=spec["out_what"], stats=summary["dist"])
     summary["dist"][kind + "_lines_compared"] = summary["dist"].get(kind + "_lines_compared", 0) + n
     summary["dist"][kind + ("_z3_model" if use_z3 else "_synthetic_model")] = \
         summary["dist"].get(kind + ("_z3_model" if use_z3 else "_synthetic_model"), 0) + 1
